@@ -232,3 +232,227 @@ Proof. rewrite check_case_policy_valid, policy_valid_model. reflexivity. Qed.
 
 Lemma policy_valid_monitor_sound_l id ok : no_code 1%N (check_case (id, CPolicyValid ok)) -> ok = true.
 Proof. rewrite check_case_policy_valid, policy_valid_model. intros H. apply no1_fail1 in H. now apply eqb_prop in H. Qed.
+
+(* ================================================================== *)
+(* CTrust: IsTrustedPeer(0..n-1) after a Trust/Distrust history       *)
+(* (code 1)                                                           *)
+(* ================================================================== *)
+Definition trust_model_obs (cfg : crdt_cfg) (h : list top) (n : nat) : list bool := map (trust_crdt cfg h) (seqN 0 n).
+
+Lemma trust_model_obs_length cfg h n : length (trust_model_obs cfg h n) = n.
+Proof. unfold trust_model_obs. now rewrite map_length, seqN_length. Qed.
+
+Lemma trust_model_obs_fix cfg h n :
+  map (trust_crdt cfg h) (seqN 0 (length (trust_model_obs cfg h n))) = trust_model_obs cfg h n.
+Proof. rewrite trust_model_obs_length. reflexivity. Qed.
+
+Lemma no1_fail1_only id b : no_code 1%N (fail1 id b) -> b = true.
+Proof. intros H. rewrite <- (app_nil_r (fail1 id b)) in H. now apply no1_fail1 in H. Qed.
+
+Lemma trust_obs_nth cfg h obs : list_eqb Bool.eqb (map (trust_crdt cfg h) (seqN 0 (length obs))) obs = true ->
+  forall i, i < length obs -> nth i obs false = trust_crdt cfg h (N.of_nat i).
+Proof. intros E i Hi. apply list_eqb_bool_eq in E.
+  pose proof (nth_map_seqN (trust_crdt cfg h) false (length obs) 0%N i Hi) as H. rewrite E in H.
+  change (0 + N.of_nat i)%N with (N.of_nat i) in H. exact H. Qed.
+
+(* every flag, configured list, history, number of peers asked about *)
+Lemma trust_model_passes_monitor_l id star l h n :
+  check_case (id, CTrust star l h (trust_model_obs (mk_crdt_cfg star 0%N l) h n)) = [].
+Proof. rewrite check_case_trust, trust_model_obs_fix. apply fail1_nil. now apply list_eqb_bool_eq. Qed.
+
+(* no code 1: every answer of the implementation is the one the configuration and the history call for *)
+Lemma trust_monitor_sound_l id star l h obs : no_code 1%N (check_case (id, CTrust star l h obs)) ->
+  forall i, i < length obs -> let p := N.of_nat i in
+    nth i obs false = trust_crdt (mk_crdt_cfg star 0%N l) h p /\
+    (nth i obs false = true <-> star = true \/ p = 0%N \/ last_op p h = Some true \/ (last_op p h = None /\ In p l)).
+Proof. rewrite check_case_trust. intros H i Hi p. apply no1_fail1_only in H.
+  pose proof (trust_obs_nth _ _ _ H i Hi) as E. fold p in E. split; [exact E|]. rewrite E.
+  exact (trust_follows_history_l (mk_crdt_cfg star 0%N l) h p). Qed.
+
+(* ================================================================== *)
+(* CTrustJ: the same, the configuration as written in the file        *)
+(* (codes 1, 2)                                                       *)
+(* ================================================================== *)
+Lemma listed_b_spec tp p : listed_b tp p = true <-> listed_json tp p.
+Proof. unfold listed_json. destruct tp as [l|]; cbn [listed_b].
+  - rewrite existsb_exists. split.
+    + intros [e [He Hb]]. exists l. split; [reflexivity|]. destruct e as [|q]; [now left|]. apply N.eqb_eq in Hb. subst q. now right.
+    + intros [l' [E [H|H]]]; injection E as <-; [exists TStar|exists (TPeer p)]; split; auto. apply N.eqb_refl.
+  - split; [discriminate|]. intros [l [E _]]. discriminate. Qed.
+
+Lemma trustj_trust tp env h p : trust_crdt (trustj_cfg tp env) h p = trust_crdt (cfg_of_json 0%N tp) h p.
+Proof. unfold trustj_cfg. destruct env; [apply env_pass_same_trust|reflexivity]. Qed.
+
+(* an answer list equal to the model's satisfies the specification-level monitor *)
+Lemma trustj_okb_agree tp env h obs :
+  map (trust_crdt (trustj_cfg tp env) h) (seqN 0 (length obs)) = obs -> trustj_okb tp h obs = true.
+Proof. intros E. unfold trustj_okb. destruct h as [|o r]; [|reflexivity]. cbn [negb orb].
+  apply (forallb_combine_map (trust_crdt (trustj_cfg tp env) []) _ _ _ E).
+  intros p _. cbn [fst snd]. destruct (trust_crdt (trustj_cfg tp env) [] p) eqn:Et; [|reflexivity]. cbn [negb orb].
+  rewrite trustj_trust in Et. apply trust_json_l in Et. destruct Et as [->|Et]; [reflexivity|].
+  apply listed_b_spec in Et. rewrite Et. apply orb_true_r. Qed.
+
+(* every trusted_peers value (absent, null, any list, "*" anywhere), with or without the environment pass, every history *)
+Lemma trustj_model_passes_monitor_l id tp env h n :
+  check_case (id, CTrustJ tp env h (trust_model_obs (trustj_cfg tp env) h n)) = [].
+Proof. rewrite check_case_trustj, trust_model_obs_fix.
+  rewrite (trustj_okb_agree tp env h _ (trust_model_obs_fix _ h n)).
+  replace (list_eqb Bool.eqb _ _) with true; [reflexivity|]. symmetry. now apply list_eqb_bool_eq. Qed.
+
+(* no code 2: right after loading, a peer other than the component itself is reported trusted only if it, or "*", is written in
+   the file *)
+Lemma trustj_monitor_sound_l id tp env h obs : no_code 2%N (check_case (id, CTrustJ tp env h obs)) -> h = [] ->
+  forall i, i < length obs -> nth i obs false = true -> i = 0 \/ listed_json tp (N.of_nat i).
+Proof. rewrite check_case_trustj. intros H Hh i Hi Ht. rewrite <- (app_nil_r (fail2 _ _)) in H. apply no2_fail2 in H.
+  unfold trustj_okb in H. subst h. cbn [negb orb] in H.
+  pose proof (in_seqN_combine _ obs 0%N H i Hi) as G. cbv beta in G. cbn [fst snd] in G.
+  change (0 + N.of_nat i)%N with (N.of_nat i) in G. rewrite Ht in G. cbn [negb orb] in G.
+  apply orb_true_iff in G. destruct G as [G|G]; [left; apply N.eqb_eq in G; lia|right; now apply listed_b_spec]. Qed.
+
+Lemma cfg_of_json_self me tp : self (cfg_of_json me tp) = me.
+Proof. unfold cfg_of_json. destruct tp as [l|]; [|reflexivity]. destruct (load_trusted l []); reflexivity. Qed.
+
+Lemma cfg_of_json_star me tp : trust_all (cfg_of_json me tp) = true <-> exists l, tp = Some l /\ In TStar l.
+Proof. unfold cfg_of_json. destruct tp as [l|].
+  - destruct (in_star_dec l) as [Hs|Hs].
+    + rewrite (proj1 (load_trusted_spec l []) Hs). cbn [trust_all]. split; [intros _; eauto|reflexivity].
+    + rewrite (proj2 (load_trusted_spec l []) Hs). cbn [trust_all]. split; [discriminate|].
+      intros [l' [E H]]. injection E as <-. contradiction.
+  - cbn [trust_all]. split; [discriminate|]. intros [l [E _]]. discriminate. Qed.
+
+Lemma cfg_of_json_configured me tp p :
+  In p (configured (cfg_of_json me tp)) <-> exists l, tp = Some l /\ ~ In TStar l /\ In (TPeer p) l.
+Proof. unfold cfg_of_json. destruct tp as [l|].
+  - destruct (in_star_dec l) as [Hs|Hs].
+    + rewrite (proj1 (load_trusted_spec l []) Hs). cbn [configured]. split; [intros []|].
+      intros [l' [E [H _]]]. injection E as <-. contradiction.
+    + rewrite (proj2 (load_trusted_spec l []) Hs). cbn [configured app]. rewrite in_peers_of. split.
+      * intros H. exists l. auto.
+      * intros [l' [E [_ H]]]. injection E as <-. exact H.
+  - cbn [configured]. split; [intros []|]. intros [l [E _]]. discriminate. Qed.
+
+(* no code 1: every answer is the model's on the loaded configuration (the environment pass changes nothing), i.e. the component
+   itself, "*" written, a later Trust, or written in the file and never touched since *)
+Lemma trustj_agreement_sound_l id tp env h obs : no_code 1%N (check_case (id, CTrustJ tp env h obs)) ->
+  forall i, i < length obs -> let p := N.of_nat i in
+    nth i obs false = trust_crdt (cfg_of_json 0%N tp) h p /\
+    (nth i obs false = true <->
+     p = 0%N \/ (exists l, tp = Some l /\ In TStar l) \/ last_op p h = Some true \/
+     (last_op p h = None /\ exists l, tp = Some l /\ In (TPeer p) l)).
+Proof. rewrite check_case_trustj. intros H i Hi p. apply no1_fail1 in H.
+  pose proof (trust_obs_nth _ _ _ H i Hi) as E. fold p in E. rewrite trustj_trust in E. split; [exact E|]. rewrite E.
+  rewrite trust_follows_history_l, cfg_of_json_self, cfg_of_json_star, cfg_of_json_configured. split.
+  - intros [A|[A|[A|[A [l [B [_ C]]]]]]]; [right; left; exact A|left; exact A|right; right; left; exact A|].
+    right; right; right. split; [exact A|]. exists l. auto.
+  - intros [A|[A|[A|[A [l [B C]]]]]]; [right; left; exact A|left; exact A|right; right; left; exact A|].
+    destruct (in_star_dec l) as [Hs|Hs]; [left; exists l; auto|]. right; right; right. split; [exact A|]. exists l. auto. Qed.
+
+(* ================================================================== *)
+(* CDeliver: a signed update handed to peer 0 (codes 1, 2)            *)
+(* ================================================================== *)
+Lemma deliver_model_passes_monitor_l id star l h signer fwd relay_ok :
+  check_case (id, CDeliver star l h signer fwd relay_ok (relay_ok && validator (mk_crdt_cfg star 0%N l) h signer)) = [].
+Proof. rewrite check_case_deliver, eqb_reflx. unfold validator.
+  destruct relay_ok, (trust_crdt (mk_crdt_cfg star 0%N l) h signer); reflexivity. Qed.
+
+(* no code 2: an update signed by a peer the replica does not trust did not reach its state, whoever handed it over *)
+Lemma deliver_monitor_sound_l id star l h signer fwd relay_ok arrived :
+  no_code 2%N (check_case (id, CDeliver star l h signer fwd relay_ok arrived)) ->
+  trust_crdt (mk_crdt_cfg star 0%N l) h signer = false -> arrived = false.
+Proof. rewrite check_case_deliver. intros H Ht. rewrite <- (app_nil_r (fail2 _ _)) in H. apply no2_fail2 in H.
+  rewrite Ht, orb_false_r in H. now apply negb_true_iff in H. Qed.
+
+(* no code 1: it arrived iff the relay passed it on and the signer is trusted - never a function of the forwarder *)
+Lemma deliver_agreement_sound_l id star l h signer fwd relay_ok arrived :
+  no_code 1%N (check_case (id, CDeliver star l h signer fwd relay_ok arrived)) ->
+  arrived = relay_ok && trust_crdt (mk_crdt_cfg star 0%N l) h signer.
+Proof. rewrite check_case_deliver. intros H. apply no1_fail1 in H. apply eqb_prop in H. now symmetry. Qed.
+
+(* ---- any number of messages: the cases of a message list against `deliver` ---- *)
+Record dobs (U : Type) : Type := mk_dobs { d_signer : N; d_payload : U; d_fwd : N; d_relay_ok : bool; d_arrived : bool }.
+Arguments mk_dobs {U}. Arguments d_signer {U}. Arguments d_payload {U}. Arguments d_fwd {U}.
+Arguments d_relay_ok {U}. Arguments d_arrived {U}.
+
+Definition deliver_cases {U} (id : N) star l h (obs : list (dobs U)) : list (N * c07case) :=
+  map (fun o => (id, CDeliver star l h (d_signer o) (d_fwd o) (d_relay_ok o) (d_arrived o))) obs.
+Definition published {U} (obs : list (dobs U)) : list (N * U) := map (fun o => (d_signer o, d_payload o)) obs.
+Definition arrived_payloads {U} (obs : list (dobs U)) : list U := map d_payload (filter d_arrived obs).
+(* a message list annotated with the model's verdicts; fwd / rok: who handed each message over and whether that relay passed it on *)
+Definition deliver_model_obs {U} (cfg : crdt_cfg) (h : list top) (fwd : N * U -> N) (rok : N * U -> bool) (msgs : list (N * U)) : list (dobs U) :=
+  map (fun m => mk_dobs (fst m) (snd m) (fwd m) (rok m) (rok m && validator cfg h (fst m))) msgs.
+
+Lemma no_code_flat_map {A} k (f : A -> list (N * N * N)) l : no_code k (flat_map f l) -> forall x, In x l -> no_code k (f x).
+Proof. intros H x Hx c Hc. apply H. apply in_flat_map. exists x. auto. Qed.
+
+Lemma flat_map_nil {A B} (f : A -> list B) l : (forall x, In x l -> f x = []) -> flat_map f l = [].
+Proof. induction l as [|x r IH]; intros H; cbn [flat_map]; [reflexivity|]. rewrite (H x (or_introl eq_refl)). apply IH.
+  intros y Hy. apply H. now right. Qed.
+
+Lemma deliver_list_model_passes_l {U} id star l h fwd rok (msgs : list (N * U)) :
+  C07_Check.failing (deliver_cases id star l h (deliver_model_obs (mk_crdt_cfg star 0%N l) h fwd rok msgs)) = [] /\
+  published (deliver_model_obs (mk_crdt_cfg star 0%N l) h fwd rok msgs) = msgs /\
+  ((forall m, In m msgs -> rok m = true) ->
+   arrived_payloads (deliver_model_obs (mk_crdt_cfg star 0%N l) h fwd rok msgs) = deliver (mk_crdt_cfg star 0%N l) h msgs).
+Proof. split; [|split].
+  - unfold C07_Check.failing. apply flat_map_nil. intros c Hc. unfold deliver_cases, deliver_model_obs in Hc.
+    rewrite map_map in Hc. apply in_map_iff in Hc. destruct Hc as [m [<- _]]. cbn [d_signer d_fwd d_relay_ok d_arrived].
+    apply deliver_model_passes_monitor_l.
+  - unfold published, deliver_model_obs. rewrite map_map. cbn [d_signer d_payload].
+    rewrite <- (map_id msgs) at 2. apply map_ext. intros [s u]. reflexivity.
+  - intros Hr. unfold arrived_payloads, deliver_model_obs, deliver. induction msgs as [|m r IH]; [reflexivity|].
+    cbn [map filter d_arrived]. rewrite (Hr m (or_introl eq_refl)). cbn [andb].
+    destruct (validator (mk_crdt_cfg star 0%N l) h (fst m)); cbn [map d_payload]; rewrite IH; auto;
+      intros m' Hm'; apply Hr; now right. Qed.
+
+(* no code 2 on any case of the list: whatever reached the state is among what the model's replica merges from the published
+   list, and nothing signed by an untrusted peer arrived *)
+Lemma deliver_list_monitor_sound_l {U} id star l h (obs : list (dobs U)) :
+  no_code 2%N (C07_Check.failing (deliver_cases id star l h obs)) ->
+  (forall x, In x (arrived_payloads obs) -> In x (deliver (mk_crdt_cfg star 0%N l) h (published obs))) /\
+  (forall u, trust_crdt (mk_crdt_cfg star 0%N l) h u = false -> forall o, In o obs -> d_signer o = u -> d_arrived o = false).
+Proof. intros H.
+  assert (P : forall o, In o obs -> d_arrived o = true -> trust_crdt (mk_crdt_cfg star 0%N l) h (d_signer o) = true).
+  { intros o Ho Ha. destruct (trust_crdt (mk_crdt_cfg star 0%N l) h (d_signer o)) eqn:Et; [reflexivity|].
+    assert (Hc : In (id, CDeliver star l h (d_signer o) (d_fwd o) (d_relay_ok o) (d_arrived o)) (deliver_cases id star l h obs)).
+    { unfold deliver_cases. apply in_map_iff. exists o. auto. }
+    pose proof (no_code_flat_map _ _ _ H _ Hc) as H2. apply deliver_monitor_sound_l in H2; [congruence|exact Et]. }
+  split.
+  - intros x Hx. unfold arrived_payloads in Hx. apply in_map_iff in Hx. destruct Hx as [o [<- Ho]].
+    apply filter_In in Ho. destruct Ho as [Ho Ha]. unfold deliver, published. apply in_map_iff.
+    exists (d_signer o, d_payload o). split; [reflexivity|]. apply filter_In. split.
+    + apply in_map_iff. exists o. auto.
+    + cbn [fst]. unfold validator. now apply P.
+  - intros u Hu o Ho <-. destruct (d_arrived o) eqn:Ea; [|reflexivity]. rewrite (P o Ho Ea) in Hu. discriminate. Qed.
+
+(* no code 1 on any case, every relay passing on: what reached the state is exactly what the model's replica merges *)
+Lemma deliver_list_agreement_l {U} id star l h (obs : list (dobs U)) :
+  no_code 1%N (C07_Check.failing (deliver_cases id star l h obs)) -> (forall o, In o obs -> d_relay_ok o = true) ->
+  arrived_payloads obs = deliver (mk_crdt_cfg star 0%N l) h (published obs).
+Proof. intros H Hr.
+  assert (P : forall o, In o obs -> d_arrived o = validator (mk_crdt_cfg star 0%N l) h (d_signer o)).
+  { intros o Ho.
+    assert (Hc : In (id, CDeliver star l h (d_signer o) (d_fwd o) (d_relay_ok o) (d_arrived o)) (deliver_cases id star l h obs)).
+    { unfold deliver_cases. apply in_map_iff. exists o. auto. }
+    pose proof (no_code_flat_map _ _ _ H _ Hc) as H1. apply deliver_agreement_sound_l in H1.
+    rewrite (Hr o Ho) in H1. exact H1. }
+  clear H Hr. unfold arrived_payloads, deliver, published. induction obs as [|o r IH]; [reflexivity|].
+  cbn [map filter fst]. rewrite (P o (or_introl eq_refl)).
+  destruct (validator (mk_crdt_cfg star 0%N l) h (d_signer o)); cbn [map snd]; rewrite IH; auto;
+    intros o' Ho'; apply P; now right. Qed.
+
+(* ================================================================== *)
+(* every case kind at once: agreement with the model is enough        *)
+(* ================================================================== *)
+(* on ANY case (any kind, any input, any observation): if code 1 is absent - the implementation did what the model does - then
+   no code at all is produced: the specification-level monitors (code 2) never alarm on behaviour the model allows, and
+   "agrees with the model on this input" implies "satisfies the monitored property on this input" *)
+Lemma agreement_no_alarm_l c : no_code 1%N (check_case c) -> check_case c = [].
+Proof. destruct c as [id k]. destruct k as [m caller ep passed|l|l|ok|star l h obs|tp env h obs|star l h signer fwd relay_ok arrived]; intros H.
+  - pose proof (auth_agreement_sound_l _ _ _ _ _ H) as [E _]. subst passed. apply auth_model_passes_monitor_l.
+  - rewrite check_case_methods in *. apply no1_fail1 in H. rewrite H. reflexivity.
+  - rewrite check_case_policy in *. apply no1_fail1 in H. rewrite H. reflexivity.
+  - rewrite check_case_policy_valid in *. apply no1_fail1 in H. rewrite H. reflexivity.
+  - rewrite check_case_trust in *. apply no1_fail1_only in H. rewrite H. reflexivity.
+  - rewrite check_case_trustj in *. apply no1_fail1 in H. rewrite H. apply list_eqb_bool_eq in H.
+    rewrite (trustj_okb_agree tp env h obs H). reflexivity.
+  - pose proof (deliver_agreement_sound_l _ _ _ _ _ _ _ _ H) as E. subst arrived. apply deliver_model_passes_monitor_l. Qed.
